@@ -14,6 +14,7 @@ import numpy as np
 
 from .. import gen, install, loops
 from ..common import shard_count
+from ..ctx import LoopBoundExceeded
 
 META = {
     'rule': ('cases = miss-ratio-like curves (x = 1..n or cumulative integer gaps 1..19, optionally from 0; '
@@ -27,7 +28,8 @@ META = {
     'scale': {'quick': 1, 'thorough': 20},
     'quick_cases': 10000, 'thorough_cases': 200000,
     'assumptions': ['termination is decided as bounded progress per execution: the while loop of getPoints '
-                    'may take at most 2*(ceil((3 - min z)/dz) + n) + 8 iterations',
+                    'may take at most 2*(ceil((3 - min z)/dz) + n) + 8 iterations, and every round that selects '
+                    'an outlier must remove at least one row from the point table (the variant behind that bound)',
                     'x is integer-valued (getPoints keys its result by int(x)); curves with non-integer x, '
                     'y outside [0,1], n < 4 or non-positive dx/dy/dz are out of domain',
                     'a falsy x_max / y_range is the documented "not given" value'],
@@ -207,20 +209,45 @@ def post_getpoints(ctx, original, args, kwargs, result):
 
 
 _STATE = {}
+LOOPKEY = 'zmethod.getPoints#0'
+
+
+def progress_hook(self, key, frame, loc, count):
+    """Variant behind the step bound: a round that selects an outlier shrinks the point table.
+
+    The first outlier selected in a round is a row of the current table and lies inside its own
+    x band (x_width >= 1), so the band filter removes at least that row.  Rounds that select
+    nothing are bounded by the z ladder, rounds that select something by n - provided this holds.
+    Read at the first body line of the loop, i.e. once per round.
+    """
+    try:
+        cur = (len(loc['outlier_points']), len(loc['points']))
+    except Exception:
+        return
+    per = self.counts[id(frame)]
+    prev = per.get(key + ':progress')
+    per[key + ':progress'] = cur
+    if prev is not None and cur[0] > prev[0] and not cur[1] < prev[1]:
+        raise LoopBoundExceeded(key, count, self.bounds[key](loc),
+                                info=f'a round selected {cur[0] - prev[0]} outlier(s) without removing any '
+                                     f'point from the table ({prev[1]} -> {cur[1]} rows)')
 
 
 def setup(ctx, mods):
     install.monitor(ctx, 'zmethod', 'knees', post_knees)
     install.monitor(ctx, 'zmethod', 'getPoints', post_getpoints)
-    _STATE['loops'] = loops.standard(ctx, mods)
-    return {'loops': _STATE['loops']}
+    lm = loops.standard(ctx, mods)
+    if LOOPKEY in lm.bounds:
+        lm.hooks[LOOPKEY] = progress_hook
+    _STATE['loops'] = lm
+    return {'loops': lm}
 
 
 def finish(ctx, mods):
     # the termination clause is only decided if the loop monitor really saw the loop
     lm = _STATE.get('loops')
     if lm is not None:
-        n = lm.activations.get('zmethod.getPoints#0', 0)
+        n = lm.activations.get(LOOPKEY, 0)
         if n:
             ctx.ok('loopmon:zmethod.getPoints#0', n)
 
